@@ -177,8 +177,6 @@ impl PartialEq for Variable {
     }
 }
 
-impl Eq for Variable {}
-
 #[doc(hidden)]
 impl TryFrom<Pair<'_, Rule>> for Variable {
     type Error = Error;
